@@ -9,6 +9,8 @@ def obligations(tier):
         k_api.obligation(tier, {"C08"}, "O8.6 end to end: every class completes or raises AssertionError; per-feature attributes coherent; values_orders a well-formed partition covering the training values; dropped features untouched",
                          ["BinaryCarver", "ContinuousCarver", "Discretizer", "QuantitativeDiscretizer", "ContinuousDiscretizer"], ns=[4] if quick else [4, 5], max_pats=6 if quick else 20),
         k_quantiles.obligation(tier, {"C08"}, "O8.1 find_quantiles/fit_feature: no internal error, unique strictly increasing leaders, inf sentinel", ["sorted", "free"]),
+        k_api.obligation(tier, {"C08", "C05"}, "O8.9 degenerate quantitative columns: all-missing column, a single non-missing value among missing ones (every class): completes or AssertionError, coherent afterwards",
+                         ["BinaryCarver", "ContinuousCarver", "Discretizer", "QuantitativeDiscretizer", "ContinuousDiscretizer"], ns=[0, 1], nan_opts=(3,), max_pats=3),
         k_categorical.obligation(tier, {"C08"}, "O8.7 qualitative / ordinal features with solver-chosen level sizes (incl. every level rarer than min_freq) through Categorical-, Qualitative-Discretizer and Discretizer: completes, attributes coherent, dropped features untouched"),
         k_ordinal.obligation(tier, {"C08"}, "O8.2 OrdinalDiscretizer.fit: terminates without internal error; result is a well-formed partition of the ranking"),
     ]
